@@ -136,6 +136,14 @@ def narrow_only(fn, site):
     return False
 
 
+def r10_5(F, R):
+    import json, os
+    from .common import narrowing_rule
+    aud = json.load(open(os.path.join(os.path.dirname(os.path.dirname(os.path.dirname(os.path.abspath(__file__)))), "tables", "narrowing_audited.json")))
+    narrowing_rule(F, R, "R10.5", "the tfm crate and the tftopl / pltotf tools",
+                   lambda fn: fn.crate in ("tfm.lib", "tftopl.bin", "pltotf.bin") and "arbitrary::Arbitrary" not in fn.name, 10, aud)
+
+
 def run(F, R, tier):
     R.rule("R10.1", "explicit panics and the unwrap family in every function reachable from tfm_to_pl / pl_to_tfm are discharged or findings")
     R.rule("R10.2", "every assert terminator (overflow, division, bounds) and every curated panicking std call (indexing, slicing, split_at, rotate, "
@@ -144,6 +152,7 @@ def run(F, R, tier):
     kinds = ("K1", "K2", "K3", "K4")
     r10_3(F, R)
     r10_4(F, R)
+    r10_5(F, R)
 
     def armed(fn, site):
         return narrow_only(fn, site)
